@@ -122,6 +122,11 @@ def body(ctx: core.Ctx, case: dict):
             except Exception:  # noqa: BLE001  refusal expected
                 ctx.label(*labels)
                 ctx.mark_nontrivial({'neg': case['negative'], 'sizes': sizes, 'layout': layout})
+                # refused means nothing happened: the inputs are where they were (so the consistent ones can be merged)
+                gone = [b.name for b in bases if not b.exists()]
+                if gone:
+                    ctx.fail('refusal.moved_inputs', 'mismatch', 'TrajectoryStore.merge', case['negative'],
+                             f'merge refused the inputs ({case["negative"]}) but {gone} are no longer in place', case)
                 return
             ctx.fail('refusal.accepted', 'mismatch', 'TrajectoryStore.merge', case['negative'],
                      f'merge accepted inputs that must be refused ({case["negative"]})', case)
